@@ -570,6 +570,23 @@ fn do_put(ch: &mut Chooser, ctx: &mut Ctx, w: &mut World, s: usize) -> bool {
             }
         }
     }
+    // the ancestor release as a foreign writer: for multiples of 64 the bytes are equal (C02)
+    if b % 64 == 0 && ch.chance("put.ancestor", 1, 2) {
+        let originals = &w.stripes[s].originals;
+        match ctx.shadow(|| ancestor_encode(high, k, r, originals)) {
+            Ok(Ok(v)) => {
+                ctx.count("c02.ancestor_release_encodes_compared");
+                if v != recovery && ctx.viol(&["C02"], "ancestor-release", "ancestor/encode".into(), format!("stripe ({k},{r},{b}) {} rate: recovery bytes differ from those of reed-solomon-16 0.1.0", if high { "high" } else { "low" }), false) {
+                    return true;
+                }
+            }
+            Ok(Err(why)) => {
+                ctx.count("c02.ancestor_release_unusable");
+                ev!(ctx, "ancestor encoder unusable here: {why}");
+            }
+            Err(_) => {}
+        }
+    }
     // one-shot encode (C10) where the default rule picks this stripe's rate
     if envelope::default_supported(k, r) && envelope::default_is_high(k, r) == high && ch.chance("put.oneshot", 1, 3) {
         let originals = &w.stripes[s].originals;
@@ -1047,6 +1064,22 @@ fn try_decode(ch: &mut Chooser, ctx: &mut Ctx, w: &mut World, g: usize) -> bool 
             }
         }
         ctx.cpu_mask = u32::MAX;
+    }
+    // the ancestor release as a foreign reader of these shards (C02 interoperability)
+    if b % 64 == 0 && ch.chance("get.ancestor", 1, 2) {
+        match ctx.shadow(|| ancestor_decode(high, k, r, b, &adds)) {
+            Ok(Ok(m)) => {
+                ctx.count("c02.ancestor_release_decodes_compared");
+                if m != restored && ctx.viol(&["C02"], "ancestor-release", "ancestor/decode".into(), format!("stripe ({k},{r},{b}): reed-solomon-16 0.1.0 restores different data from the same delivered shards"), false) {
+                    return true;
+                }
+            }
+            Ok(Err(why)) => {
+                ctx.count("c02.ancestor_release_unusable");
+                ev!(ctx, "ancestor decoder unusable here: {why}");
+            }
+            Err(_) => {}
+        }
     }
     // the one-shot function on what actually arrived (C10); also with the rejected deliveries included
     if envelope::default_supported(k, r) && envelope::default_is_high(k, r) == high && ch.chance("get.oneshot", 1, 2) {
